@@ -12,6 +12,7 @@ import (
 	"os"
 	"path/filepath"
 	"sort"
+	"strings"
 
 	"github.com/gabriel-vasile/mimetype"
 )
@@ -57,6 +58,9 @@ func loadCorpus(dir string) (names []string, data [][]byte) {
 		"gif-then-text":      "GIF89a plain text follows, no binary bytes",
 		"pdf-then-zip":       "%PDF-1.4 PK\x03\x04",
 		"bom-json":           "\xEF\xBB\xBF{\"a\":1}",
+		"json-escaped-keys":  `{"\u0074ype":"Feature","k\u00e9y":[1,{"\u0061":null}],"log":{"ver\u0073ion":"1.2"}}`,
+		"long-text-then-nul": strings.Repeat("plain text line, forty bytes long ......\n", 100) + "\x00\x01 binary tail " + strings.Repeat("x", 600),
+		"long-text":          strings.Repeat("another plain text line of fifty bytes ..........\n", 90),
 		"bom16-binary":       "\xFF\xFE\x00\x01\x02\x03",
 		"empty":              "",
 		"one-space":          " ",
